@@ -111,6 +111,40 @@ class Emitter:
         if t.k == 'array': return '[%d x %s]' % (t.n, s.canon(t.elem))
         if t.k in ('ptr', 'func'): return 'p'
         return repr(t)
+    def memtype(s, t):
+        """C type mirroring the in-memory layout of LLVM type t with typed leaves (pointers stay pointers for CBMC);
+        returns (decl_prefix, suffix) such that `prefix NAME suffix;` declares an object"""
+        t = s.res(t); k = t.k
+        if k == 'int':
+            sz = s.L.size(t)
+            if sz in (1, 2, 4, 8): return ({1: 'u8', 2: 'u16', 4: 'u32', 8: 'u64'}[sz], '')
+            return ('u8', '[%d]' % sz)
+        if k in ('ptr', 'func'): return ('char*', '')
+        if k == 'double': return ('u64', '')
+        if k == 'float': return ('u32', '')
+        if k == 'x86_fp80': return ('u8', '[16]')
+        if k == 'array':
+            if t.n == 0: return ('u8', '[1]')
+            p, suf = s.memtype(t.elem)
+            if t.n > 4096 and s.res(t.elem).k == 'int': return ('u8', '[%d]' % s.L.size(t))
+            return (p, '[%d]%s' % (t.n, suf))
+        if k == 'struct':
+            key = 'M' + s.canon(t)
+            if key in s.aggs: return (s.aggs[key], '')
+            name = 'struct mt_%d' % len(s.aggs); s.aggs[key] = name
+            fields = []; pos = 0
+            for i, f in enumerate(t.fields):
+                off = s.L.field_off(t, i)
+                if off > pos: fields.append('u8 pad%d[%d];' % (i, off - pos))
+                fp, fs = s.memtype(f); fsz = s.L.size(f)
+                if fsz: fields.append('%s f%d%s;' % (fp, i, fs))
+                pos = off + fsz
+            tot = s.L.size(t)
+            if tot > pos: fields.append('u8 padz[%d];' % (tot - pos))
+            if not fields: fields.append('u8 e;')
+            s.agg_defs.append('%s { %s } __attribute__((packed));' % (name, ' '.join(fields)))
+            return (name, '')
+        raise Unsupported('memtype %r' % t)
     def fkind(s, t):
         k = s.res(t).k
         return {'double': 'f64', 'float': 'f32', 'x86_fp80': 'f80'}.get(k)
@@ -272,6 +306,13 @@ class Emitter:
             decls.append('extern char %s[%d];' % (name, size))
             defs.append('char %s[%d] __attribute__((aligned(%d)));' % (name, size, al))
             return
+        if g.init is not None and g.init.k in ('zero', 'undef') and size <= 65536:
+            try:
+                mp_, ms_ = s.memtype(g.ty)
+                decls.append('extern %s %s%s __attribute__((aligned(%d)));' % (mp_, name, ms_, al))
+                defs.append('%s %s%s __attribute__((aligned(%d)));' % (mp_, name, ms_, al))
+                return
+            except Unsupported: pass
         leaves = []
         s.flatten(g.init, g.ty, 0, leaves)
         leaves.sort(key=lambda x: x[0])
@@ -415,6 +456,7 @@ class FnEmitter:
         s.types = {}
         s.preds = {}
         s.tmpc = 0
+        s.p2i = {}
         s.nsw = not (E.o.no_nsw and re.search(E.o.no_nsw, f.name))
         s.yield_on = bool(E.o.yield_re and re.search(E.o.yield_re, f.name))
         s.redirect = {}
@@ -575,6 +617,10 @@ class FnEmitter:
         R = s.lname(ins.res) if ins.res is not None else None
         loc = '%s:%s' % (s.f.name[:60], ins.res or op)
         if op == 'phi': return
+        if op == 'sub' and all(o.k == 'local' and o.v in s.p2i for o in ins.ops) and E.res(ins.ty).n == 64:
+            # (ptrtoint p) - (ptrtoint q): emit as a pointer difference so that CBMC can fold it within one object
+            pa, pb = s.v(s.p2i[ins.ops[0].v]), s.v(s.p2i[ins.ops[1].v])
+            s.w('%s = (%s == %s) ? (u64)0 : (u64)(%s - %s);' % (R, pa, pb, pa, pb)); return
         if op in ('add', 'sub', 'mul'):
             a, b = v(ins.ops[0]), v(ins.ops[1]); t = ins.ty; n = E.res(t).n; W = E.wide(t); c = {'add': '+', 'sub': '-', 'mul': '*'}[op]
             fl = ins.x['flags']
@@ -642,7 +688,9 @@ class FnEmitter:
             if fk == 'float' and tk == 'int': s.w('%s = VF_F2BITS32(%s);' % (R, v(a))); return
             if fk == 'int' and tk == 'float': s.w('%s = VF_BITS2F32(%s);' % (R, v(a))); return
             raise Unsupported('bitcast %r -> %r' % (a.ty, ins.ty))
-        if op == 'ptrtoint': s.w('%s = %s;' % (R, E.norm('(u64)%s' % v(ins.ops[0]), ins.ty))); return
+        if op == 'ptrtoint':
+            s.p2i[ins.res] = ins.ops[0]
+            s.w('%s = %s;' % (R, E.norm('(u64)%s' % v(ins.ops[0]), ins.ty))); return
         if op == 'inttoptr': s.w('%s = (char*)(u64)%s;' % (R, v(ins.ops[0]))); return
         if op in ('fpext', 'fptrunc'):
             s.w('%s = VF_FPCAST(%s, %s, %s);' % (R, E.fkind(ins.ty), E.fkind(ins.ops[0].ty), v(ins.ops[0]))); return
@@ -671,6 +719,12 @@ class FnEmitter:
                 if n.k != 'int': raise Unsupported('dynamic alloca')
                 sz *= n.v
             an = 'a_' + R
+            try:
+                if ins.ops: raise Unsupported('array alloca')
+                mp_, ms_ = E.memtype(t)
+                s.decls.append('%s %s%s __attribute__((aligned(%d)));' % (mp_, an, ms_, al))
+                s.w('%s = (char*)&%s;' % (R, an)); return
+            except Unsupported: pass
             s.decls.append('char %s[%d] __attribute__((aligned(%d)));' % (an, max(sz, 1), al))
             s.w('%s = %s;' % (R, an)); return
         if op == 'gep':
